@@ -169,7 +169,7 @@ pub fn entry_points(text: &str) -> Vec<(String, String)> {
     }))));
     // (c) objects: CanonicalJsonObject, try_from_json_map, ruma_signatures::canonical_json
     if text.trim_start().starts_with('{') {
-        res.push(("object+signatures::canonical_json".into(), outcome(guard(|| {
+        res.push(("sign:signatures::canonical_json".into(), outcome(guard(|| {
             let o: CanonicalJsonObject = serde_json::from_str(text).ok()?;
             ruma_signatures::canonical_json(&o).ok().map(|s| s.into_bytes())
         }))));
@@ -185,16 +185,22 @@ pub fn replay(_args: &[String]) {
     let mut out = Out::new();
     for_each_case(|i, c| {
         let mut distinct: BTreeMap<String, Vec<String>> = BTreeMap::new();
+        let mut signing: BTreeMap<String, Vec<String>> = BTreeMap::new();
         let mut texts = vec![];
         for sp in 0..4u32 {
             let mut text = String::new();
             render(&c["v"], sp, &mut text);
             for (name, oc) in entry_points(&text) {
-                distinct.entry(oc).or_default().push(format!("{sp}:{name}"));
+                // the signing form has its own expected bytes
+                if name.starts_with("sign:") {
+                    signing.entry(oc).or_default().push(format!("{sp}:{name}"));
+                } else {
+                    distinct.entry(oc).or_default().push(format!("{sp}:{name}"));
+                }
             }
             texts.push(text);
         }
-        out.put(&json!({"i": i, "outcomes": distinct, "text0": texts[0], "text1": texts[1]}));
+        out.put(&json!({"i": i, "outcomes": distinct, "signing": signing, "text0": texts[0], "text1": texts[1]}));
     });
 }
 
@@ -228,7 +234,10 @@ fn gen_val(rng: &mut rand::rngs::StdRng, depth: u32) -> Value {
         5 => json!({"a": (0..rng.gen_range(0..4)).map(|_| gen_val(rng, depth + 1)).collect::<Vec<_>>()}),
         _ => {
             let n = rng.gen_range(0..5);
-            let mut keys: Vec<Vec<u32>> = (0..n).map(|_| gen_str(rng)).collect();
+            let mut keys: Vec<Vec<u32>> = (0..n).map(|_| {
+                // the members that signing removes at the top level, and their neighbours in the sort order
+                if rng.gen_bool(0.25) { ["signatures", "unsigned", "s", "t", "hashes", "v"].choose(rng).unwrap().chars().map(|c| c as u32).collect() } else { gen_str(rng) }
+            }).collect();
             if n >= 2 && rng.gen_bool(0.3) {
                 let dup = keys[0].clone();
                 keys[n - 1] = dup;
@@ -247,8 +256,14 @@ pub fn record(args: &[String]) {
         let sp = rng.gen_range(0..4u32);
         let mut text = String::new();
         render(&v, sp, &mut text);
-        let eps = entry_points(&text);
+        let mut eps = entry_points(&text);
         let panic = eps.iter().any(|(_, o)| o.starts_with("panic"));
+        let signed: Vec<String> = eps.iter().filter(|(n, _)| n.starts_with("sign:")).map(|(_, o)| o.clone()).collect();
+        eps.retain(|(n, _)| !n.starts_with("sign:"));
+        let (sign, sbytes): (&str, Vec<u32>) = match signed.first() {
+            Some(f) if f.starts_with("ok:") => ("ok", if f.len() > 3 { f[3..].split(',').map(|x| x.parse().unwrap()).collect() } else { vec![] }),
+            _ => ("none", vec![]),
+        };
         let mut oks: Vec<&String> = eps.iter().map(|(_, o)| o).filter(|o| o.starts_with("ok:")).collect();
         oks.sort();
         oks.dedup();
@@ -258,6 +273,6 @@ pub fn record(args: &[String]) {
             Some(f) if f.len() > 3 => f[3..].split(',').map(|x| x.parse().unwrap()).collect(),
             _ => vec![],
         };
-        out.put(&json!({"i": i + 1, "v": v, "spelling": sp, "kind": kind, "bytes": bytes, "panic": panic}));
+        out.put(&json!({"i": i + 1, "v": v, "spelling": sp, "kind": kind, "bytes": bytes, "panic": panic, "sign": sign, "sbytes": sbytes}));
     }
 }
